@@ -53,6 +53,9 @@ func (s *syncRun) forgeHeader(class string, h uint64) *types.SignedHeader {
 		sig := make([]byte, 64)
 		rand.Read(sig)
 		g.Signature = sig
+	case "A4ns": // no signer and no signature at all (a "nil guard" must not let it through)
+		g.Signature = nil
+		g.Signer = types.Signer{}
 	case "A4": // unsigned
 		g.Signature = nil
 	case "A5": // wrong chain id, re-signed
@@ -320,7 +323,7 @@ func (s *syncRun) inject(class string, h uint64, via string, rng *mrand.Rand) {
 	s.full.Obs("inject")
 }
 
-var advClasses = []string{"A1same", "A1alt", "A1time", "A3", "A3g", "A4", "A5", "A5own", "A6", "A7", "D1", "D1same", "D3", "D4", "P1", "P1parked", "P1split", "A8adv", "A8uns", "A8gar"}
+var advClasses = []string{"A1same", "A1alt", "A1time", "A3", "A3g", "A4", "A4ns", "A5", "A5own", "A6", "A7", "D1", "D1same", "D3", "D4", "P1", "P1parked", "P1split", "A8adv", "A8uns", "A8gar"}
 
 // RunAdversary interleaves every adversarial class, at every position relative to the genuine
 // events of a chain, on every ingress, with genuine traffic on a full node.
